@@ -7,7 +7,7 @@ alphabet.  Oracle: the exported ParamValue parsed with unlimited precision equal
 (or documented renamed) parameter name; None-valued parameters are omitted.
 """
 
-import enum
+import enum, itertools
 from decimal import Decimal
 from fractions import Fraction
 from ..core import short_exc
@@ -355,6 +355,11 @@ def run(ctx):
         account(ctx, "external:" + it[0], "E", "p", it[1], r)
     for vals in ((1, 2, 3, 4, 5, 6, 7), (0, 0, 1, 8, 2, 3, 4), (7, 6, 5, 4, 3, 2, 1)):
         account(ctx, "external:vpulse_params", "EP", "*", ("int", str(vals)), _ext_vpulse(vals))
+    for it in [(sh, form) for sh in ("Nmos", "Pmos", "Npn", "Pnp") for form in ("kw", "obj", "obj_other_tp", "none")]:
+        account(ctx, "shorthand", it[0], it[1], ("shorthand",) + it, _shorthand_case(it))
+    many = [(o, w) for w in ("prim", "ext") for o in itertools.permutations(range(len(SPELLINGS)), 2)] + [(tuple(range(len(SPELLINGS))), w) for w in ("prim", "ext")] + [(tuple(reversed(range(len(SPELLINGS)))), w) for w in ("prim", "ext")]
+    for it in many:  # in one process, one after the other: nothing carries over from one package to the next either
+        account(ctx, "many_instances", "R" if it[1] == "prim" else "EM", "-", ("many", list(it[0]), it[1]), _many_case(it))
     sc_items = [v for v in sv]
     res = ctx.pmap(_scalar_case, sc_items, chunk=100)
     for it, r in zip(sc_items, res):
@@ -365,6 +370,75 @@ def run(ctx):
     ctx.extra["primitive_fields"] = len(plan)
     ctx.assume("floats may be exported either as their shortest-repr decimal or their exact binary value",
                "plain int parameters beyond 64 bits and ambiguous numeric spellings (' 5', '1_0', 'nan') are outside the alphabet")
+
+
+def _shorthand_case(item):
+    """h.Nmos / h.Pmos / h.Npn / h.Pnp are the generic primitive with the type filled in: whatever way the other parameters
+    are given (keywords, a parameter object, nothing), the exported instance equals that of the explicit call."""
+    import hdl21 as h
+    from hdl21 import primitives as hp
+
+    short, form = item
+    base, tp = {"Nmos": (h.Mos, h.MosType.NMOS), "Pmos": (h.Mos, h.MosType.PMOS), "Npn": (h.Bipolar, hp.BipolarType.NPN), "Pnp": (h.Bipolar, hp.BipolarType.PNP)}[short]
+    kw = dict(w=3 * h.prefix.µ, l=Decimal("0.15"), npar=4, model="mdl") if base is h.Mos else dict(w=2 * h.prefix.µ, l=1 * h.prefix.µ, model="qmdl")
+    try:
+        ctor = getattr(h, short)
+        if form == "kw":
+            call = ctor(**kw)
+        elif form == "obj":
+            call = ctor(base.paramtype(**kw))
+        elif form == "obj_other_tp":  # the parameter object says otherwise: the constructor's type wins
+            other = [m for m in type(tp) if m is not tp][0]
+            call = ctor(base.paramtype(tp=other, **kw))
+        else:
+            kw = {}
+            call = ctor()
+        want = base(tp=tp, **kw)
+        pk = []
+        for c in (call, want):
+            m = h.Module(name="T")
+            conns = {p.name: m.add(h.Signal(name="s_" + p.name)) for p in base.port_list}
+            m.add(h.Instance(name="x", of=c)(**conns))
+            pk.append(h.to_proto(m).modules[-1].instances[0])
+        if pk[0] != pk[1]:
+            got = {p.name: str(p.value).strip() for p in pk[0].parameters}
+            exp = {p.name: str(p.value).strip() for p in pk[1].parameters}
+            diff = sorted(k for k in set(got) | set(exp) if got.get(k) != exp.get(k))
+            return ("bad", f"h.{short} ({form}) exports {[(k, got.get(k)) for k in diff]} where the explicit call exports {[(k, exp.get(k)) for k in diff]}")
+    except Exception as e:
+        return ("raised", short_exc(e))
+    return ("ok", "shorthand")
+
+
+SPELLINGS = [("prefixed", "1.50", 3), ("int", 1500), ("float", "1500.0"), ("prefixed", "1500", 0), ("decimal", "1500"), ("prefixed", "1500000", -3), ("numstr", "1500"), ("decimal", "1.5E+3")]
+
+
+def _many_case(item):
+    """Several instances in one package whose parameters have the same value written differently: each keeps its own spelling
+    (digits, prefix, number type), whatever its neighbours are and whatever was exported before."""
+    import hdl21 as h
+
+    order, where = item
+    try:
+        ext = h.ExternalModule(name="EM", port_list=[h.Port(name="a")], paramtype=dict, domain="hv")
+        m = h.Module(name="Many")
+        m.s = h.Signal()
+        singles = []
+        for k in order:
+            spec = SPELLINGS[k]
+            v = mk_value(spec)
+            call = h.R(r=v) if where == "prim" else ext(dict(p=v))
+            m.add(h.Instance(name=f"x{k}", of=call)(**({"p": m.s, "n": m.s} if where == "prim" else {"a": m.s})))
+        pkg = h.to_proto(m)
+        for pi in pkg.modules[-1].instances:
+            k = int(pi.name[1:])
+            exp = expected(SPELLINGS[k], scalar_field=(where == "prim"))
+            pv = {p.name: p.value for p in pi.parameters}[("r" if where == "prim" else "p")]
+            if not matches(exp, observed(pv)):
+                return ("bad", f"instance {pi.name}, given {SPELLINGS[k]}, exports {observed(pv)} next to {[SPELLINGS[j] for j in order if j != k]}")
+    except Exception as e:
+        return ("raised", short_exc(e))
+    return ("ok", "many")
 
 
 def account(ctx, where, pname, fname, spec, r):
@@ -389,7 +463,11 @@ def account(ctx, where, pname, fname, spec, r):
 def replay(body):
     c = body["case"]
     spec = tuple(c["value"])
-    if c["where"] == "primitive":
+    if c["where"] == "shorthand":
+        r = _shorthand_case((spec[1], spec[2]))
+    elif c["where"] == "many_instances":
+        r = _many_case((tuple(spec[1]), spec[2]))
+    elif c["where"] == "primitive":
         kind = [k for (p, f, k, o) in field_plan() if p == c["primitive"] and f == c["field"]][0]
         r = _prim_case((c["primitive"], c["field"], kind, spec))
     elif c["where"] == "external:vpulse_params":
